@@ -6,8 +6,10 @@ import (
 	"massnet.org/mass-wallet/masswallet/keystore"
 )
 
+//go:norace
 func init() { Runners["C01"] = runC01 }
 
+//go:norace
 func param(p map[string]int, k string, def int) int {
 	if v, ok := p[k]; ok {
 		return v
@@ -16,6 +18,8 @@ func param(p map[string]int, k string, def int) int {
 }
 
 // drawKnobs draws the consensus / configuration knobs for a chain-following run.
+//
+//go:norace
 func drawKnobs(w *World) Knobs {
 	t := w.Plan
 	k := Knobs{
@@ -35,6 +39,8 @@ func drawKnobs(w *World) Knobs {
 }
 
 // setupWallets creates n wallets with a few addresses each on inst (solo).
+//
+//go:norace
 func setupWallets(w *World, inst *Instance, n int) error {
 	t := w.Plan
 	for i := 0; i < n; i++ {
@@ -61,6 +67,8 @@ func setupWallets(w *World, inst *Instance, n int) error {
 // finalCheck: once the environment stops changing, a fair schedule must reach
 // quiescence with every announced tip processed, and the ledger must equal the
 // model.
+//
+//go:norace
 func finalCheck(w *World, inst *Instance, class string) {
 	pending := len(inst.Pending)
 	budget := 5000 + 500*pending
@@ -84,6 +92,7 @@ func finalCheck(w *World, inst *Instance, class string) {
 	w.CheckLedger(inst, class)
 }
 
+//go:norace
 func firstLines(s string, n int) string {
 	out := ""
 	c := 0
@@ -99,6 +108,7 @@ func firstLines(s string, n int) string {
 	return out
 }
 
+//go:norace
 func runC01(w *World, p map[string]int) {
 	t := w.Plan
 	w.SetKnobs(drawKnobs(w))
